@@ -148,6 +148,7 @@ func loadProgram(repo, goarch string) (*Program, error) {
 	p.resolveFieldRenames()
 	p.resolveParamRenames()
 	p.computeOwners()
+	p.resolveClosureMethods()
 	sort.Slice(p.Funcs, func(i, j int) bool { return p.rawName(p.Funcs[i]) < p.rawName(p.Funcs[j]) })
 	return p, nil
 }
@@ -391,12 +392,30 @@ func (p *Program) computeOwners() {
 	for _, f := range p.Funcs {
 		for _, b := range f.Blocks {
 			for _, in := range b.Instrs {
-				if ci, ok := in.(ssa.CallInstruction); ok {
-					if callee := ci.Common().StaticCallee(); callee != nil && p.isLib(callee) {
+				note := func(callee *ssa.Function) {
+					if callee != nil && p.isLib(callee) {
 						if callers[callee] == nil {
 							callers[callee] = map[*ssa.Function]bool{}
 						}
 						callers[callee][f] = true
+					}
+				}
+				if ci, ok := in.(ssa.CallInstruction); ok {
+					note(ci.Common().StaticCallee())
+				}
+				// function and method values (a method value is a closure over a synthetic bound wrapper)
+				var ops []*ssa.Value
+				for _, op := range in.Operands(ops) {
+					if op == nil || *op == nil {
+						continue
+					}
+					switch v := (*op).(type) {
+					case *ssa.Function:
+						note(funcBehind(p, v))
+					case *ssa.MakeClosure:
+						if fn, ok := v.Fn.(*ssa.Function); ok && fn.Parent() == nil {
+							note(funcBehind(p, fn))
+						}
 					}
 				}
 			}
@@ -438,6 +457,84 @@ func (p *Program) computeOwners() {
 				p.owner[f] = o
 				p.RenameNotes = append(p.RenameNotes, fmt.Sprintf("function %s (%s) is not part of the reference tree and is reached only from %s: its sites are attributed to %s", p.rawName(f), p.FuncPos(f), o, o))
 			}
+		}
+	}
+	sort.Strings(p.RenameNotes)
+}
+
+// funcBehind maps a synthetic bound-method wrapper to the method it wraps (other functions to themselves).
+func funcBehind(p *Program, fn *ssa.Function) *ssa.Function {
+	if fn != nil && fn.Synthetic != "" && fn.Object() != nil {
+		if tf, ok := fn.Object().(*types.Func); ok {
+			if m := p.SSA.FuncValue(tf); m != nil {
+				return m
+			}
+		}
+	}
+	return fn
+}
+
+// resolveClosureMethods: the closures X$1..X$n of a reference function X that are gone, when X now refers to exactly
+// n functions outside the reference tree (attributed to X) as go/defer targets or function values, have become
+// those functions ("closure → method"); they are paired in order of first reference and answer to the closure names.
+func (p *Program) resolveClosureMethods() {
+	present := map[string]bool{}
+	for _, f := range p.Funcs {
+		present[p.rawName(f)] = true
+	}
+	missing := map[string][]string{} // X → missing closure names in index order
+	for name := range knownFuncs {
+		i := strings.LastIndex(name, "$")
+		if i < 0 || present[name] || strings.Contains(name[:i], "$") {
+			continue
+		}
+		missing[name[:i]] = append(missing[name[:i]], name)
+	}
+	for x, names := range missing {
+		sort.Slice(names, func(i, j int) bool {
+			a, _ := strconv.Atoi(names[i][strings.LastIndex(names[i], "$")+1:])
+			b, _ := strconv.Atoi(names[j][strings.LastIndex(names[j], "$")+1:])
+			return a < b
+		})
+		var xf *ssa.Function
+		for _, f := range p.Funcs {
+			if f.Parent() == nil && p.rawName(f) == x {
+				xf = f
+			}
+		}
+		if xf == nil {
+			continue
+		}
+		var cands []*ssa.Function
+		seen := map[*ssa.Function]bool{}
+		add := func(f *ssa.Function) {
+			f = funcBehind(p, f)
+			if f != nil && !seen[f] && f.Parent() == nil && p.isLib(f) && !knownFuncs[p.rawName(f)] && p.owner[f] == x {
+				seen[f] = true
+				cands = append(cands, f)
+			}
+		}
+		for _, b := range p.blocksOf(xf) {
+			for _, in := range b.Instrs {
+				switch v := in.(type) {
+				case *ssa.Go:
+					add(v.Call.StaticCallee())
+				case *ssa.Defer:
+					add(v.Call.StaticCallee())
+				case *ssa.MakeClosure:
+					if fn, ok := v.Fn.(*ssa.Function); ok && fn.Parent() == nil {
+						add(fn)
+					}
+				}
+			}
+		}
+		if len(cands) != len(names) {
+			continue
+		}
+		for i, f := range cands {
+			p.RenameNotes = append(p.RenameNotes, fmt.Sprintf("closure %s of the reference tree is gone; %s (%s), started/deferred/passed by %s in its place, is analysed as that closure", names[i], p.rawName(f), p.FuncPos(f), x))
+			p.renamed[f] = names[i]
+			delete(p.owner, f)
 		}
 	}
 	sort.Strings(p.RenameNotes)
